@@ -109,6 +109,12 @@ EXTRA.setdefault("C12", []).append("Every modular comparison of the cascade uses
 EXTRA["C02"].append("Re-pins during a collection are gated by the guard count (F13, fixed); stamp windows are fresh (F17, fixed).")
 EXTRA["C02"].append("Known finding F18: the same-pass destruction of a child is not gated on guards that pop_edges/Drop of its parent "
                     "created and kept.")
+EXTRA["C01"].append("An Rc obtained by Snapshot::counted is live only if the Snapshot was: the count-word side of Snapshot "
+                    "protection (which decrements stamp, how the cascade merges and judges stamps) is included.")
+EXTRA["C09"].append("Address comparison means 'same object' only while the expected WeakSnapshot's block cannot be recycled: the "
+                    "deferred-free protocol of the weak count (CW-WEAK-PROTOCOL) is included.")
+EXTRA["C12"].append("A Modular::max/le verdict never selects whether a stamp is written on the word it was about.")
+EXTRA.setdefault("C20", []).append("The thread-wide collecting flag is written only by a function that found it clear, or restored.")
 for _p in ("C01", "C03", "C05"):
     EXTRA.setdefault(_p, []).append("Known finding F19: increments of the 29-bit count fields are unbounded (CW-COUNT-OVERFLOW).")
 EXTRA["C04"].append("Known finding F14: a panicking user destructor during a collection (no unwind guard in unpin / Bag::drop).")
